@@ -127,8 +127,12 @@ fn dig_none<T>(_: &T) -> Vec<u8> {
 pub enum Scenario {
     /// Writer -> scheduled sink; the last step's digest is the byte stream received by the sink
     Write { file: FileSpec },
-    /// Reader / cursor / iterators over a scheduled source
-    Read { file: FileSpec },
+    /// Reader / cursor / iterators over a scheduled source (`v1`: the file carries a V1 trailer)
+    Read {
+        file: FileSpec,
+        #[serde(default)]
+        v1: bool,
+    },
     /// k-way merge over scheduled sources, streamed and written into a scheduled sink
     Merge { masks: Vec<u8>, cfgs: Vec<u8>, into_writer: bool },
     /// Sorter over scheduled chunk storage
@@ -140,7 +144,7 @@ impl Scenario {
     /// io::Error must come back with the same kind and payload
     pub fn direct(&self) -> bool {
         match self {
-            Scenario::Write { file } | Scenario::Read { file } => file.cfg.codec == 0,
+            Scenario::Write { file } | Scenario::Read { file, .. } => file.cfg.codec == 0,
             Scenario::Merge { cfgs, .. } => cfgs.iter().all(|c| *c != 2),
             Scenario::Sort { cfg, .. } => cfg.codec.map(|c| c.0 == 0).unwrap_or(true),
         }
@@ -223,9 +227,10 @@ pub fn run_scenario(s: &Scenario, ctl: &CtlRef, creator_err: CreatorErr) -> Vec<
             }
             r.step("into_inner", || w.into_inner(), |sink: &SFile| sink.data.clone());
         }
-        Scenario::Read { file } => {
+        Scenario::Read { file, v1 } => {
             let entries = file.entries.build();
             let bytes = write_file(&file.cfg, &entries).expect("harness: reference writer failed");
+            let bytes = if *v1 { vlib::fmt::retrail_as_v1(&bytes).expect("harness: v1 re-trailing") } else { bytes };
             let Some(reader) = r.step("Reader::new", || Reader::new(SFile::with_data(ctl, bytes.clone())), |rd| {
                 let mut d = rd.len().to_be_bytes().to_vec();
                 d.push(rd.compression_type() as u8);
@@ -414,14 +419,26 @@ pub fn scenarios(thorough: bool) -> Vec<(String, Scenario)> {
     v.push(("write-deep-none-L2".into(), Scenario::Write { file: f_deep(0) }));
     v.push(("write-snappy-L1".into(), Scenario::Write { file: f_small(5, 1) }));
     v.push(("write-empty".into(), Scenario::Write { file: FileSpec::new(FileCfg::plain(), EntrySpec::Uniform { n: 0, klen: 1, vlen: 1, wide: false }) }));
-    v.push(("read-none-L1".into(), Scenario::Read { file: f_small(0, 1) }));
-    v.push(("read-deep-none-L2".into(), Scenario::Read { file: f_deep(0) }));
-    v.push(("read-snappy-L0".into(), Scenario::Read { file: f_small(5, 0) }));
+    v.push(("read-none-L1".into(), Scenario::Read { file: f_small(0, 1), v1: false }));
+    v.push(("read-deep-none-L2".into(), Scenario::Read { file: f_deep(0), v1: false }));
+    v.push(("read-snappy-L0".into(), Scenario::Read { file: f_small(5, 0), v1: false }));
+    // V1 trailers, and deeper trees (relative moves that climb two index levels at once)
+    v.push(("read-v1-none".into(), Scenario::Read { file: f_small(0, 0), v1: true }));
+    v.push(("read-v1-snappy".into(), Scenario::Read { file: f_small(5, 0), v1: true }));
+    let f_deeper = |n: usize, levels: u8| {
+        FileSpec::new(FileCfg::layout(Some(1024), Some(1), levels), EntrySpec::Uniform { n, klen: 600, vlen: 1, wide: false })
+    };
+    v.push(("read-deep-none-L3".into(), Scenario::Read { file: f_deeper(17, 3), v1: false }));
+    v.push(("write-deep-none-L3".into(), Scenario::Write { file: f_deeper(17, 3) }));
+    if thorough {
+        v.push(("read-deep-none-L4".into(), Scenario::Read { file: f_deeper(33, 4), v1: false }));
+        v.push(("write-deep-none-L4".into(), Scenario::Write { file: f_deeper(33, 4) }));
+    }
     // every codec on the read side (third-party decoders sit between the source and the API)
-    v.push(("read-zlib-L2".into(), Scenario::Read { file: f_small(2, 2) }));
-    v.push(("read-lz4-L1".into(), Scenario::Read { file: f_small(3, 1) }));
-    v.push(("read-zstd-L1".into(), Scenario::Read { file: f_small(4, 1) }));
-    v.push(("read-pre05-L1".into(), Scenario::Read { file: f_small(1, 1) }));
+    v.push(("read-zlib-L2".into(), Scenario::Read { file: f_small(2, 2), v1: false }));
+    v.push(("read-lz4-L1".into(), Scenario::Read { file: f_small(3, 1), v1: false }));
+    v.push(("read-zstd-L1".into(), Scenario::Read { file: f_small(4, 1), v1: false }));
+    v.push(("read-pre05-L1".into(), Scenario::Read { file: f_small(1, 1), v1: false }));
     if thorough {
         v.push(("write-zlib-L2".into(), Scenario::Write { file: f_small(2, 2) }));
         v.push(("write-lz4-L0".into(), Scenario::Write { file: f_small(3, 0) }));
@@ -460,7 +477,10 @@ pub fn mini_scenarios() -> Vec<(String, Scenario)> {
     };
     for (c, l) in [(0u8, 0u8), (0, 2), (5, 1), (3, 1), (2, 0), (4, 0), (1, 1)] {
         v.push((format!("mini-write-codec{c}-L{l}"), Scenario::Write { file: f(c, l) }));
-        v.push((format!("mini-read-codec{c}-L{l}"), Scenario::Read { file: f(c, l) }));
+        v.push((format!("mini-read-codec{c}-L{l}"), Scenario::Read { file: f(c, l), v1: false }));
+        if l == 0 {
+            v.push((format!("mini-read-v1-codec{c}"), Scenario::Read { file: f(c, l), v1: true }));
+        }
     }
     v.push(("mini-merge-stream".into(), Scenario::Merge { masks: vec![0b0011, 0b0110], cfgs: vec![0, 0], into_writer: false }));
     v.push(("mini-merge-into-writer".into(), Scenario::Merge { masks: vec![0b0011, 0b0110], cfgs: vec![0, 2], into_writer: true }));
